@@ -35,6 +35,13 @@ def run(m):
         if r.returncode == 2:
             return (m, 'error', (r.stderr.strip().splitlines() or ['?'])[-1][:200])
         hit = [l for l in r.stdout.splitlines() if re.match(r'\s+(violated|undecided)\s', l) and m['expect'] in l]
+        if hit and m.get('full_property'):
+            # a known finding on another construct of the same rule must not suppress this one
+            f = subprocess.run([os.path.join(here, 'bin', 'cloverlint'), '-property', m['full_property'], '-tier', 'quick', '-repo', d, '-verif', here, '-no-evidence'], capture_output=True, text=True)
+            if f.returncode != 1 or ('VIOLATION property=' + m['full_property']) not in f.stdout or m['expect'] not in f.stdout:
+                return (m, 'survived', 'rule reports it, but the property check printed no VIOLATION line for it (exit %d)' % f.returncode)
+            if 'KNOWN-FINDING: property=' + m['full_property'] not in f.stdout:
+                return (m, 'survived', 'the known finding is no longer reported next to the new violation')
         if hit:
             return (m, 'killed', hit[0].split()[1][:120])
         anyv = [l for l in r.stdout.splitlines() if re.match(r'\s+(violated|undecided)\s', l)]
